@@ -26,7 +26,20 @@ def apply_impl(nodes, op):
         if k == "remove":
             nodes[op[1]].remove_child(nodes[op[2]]); return None
         if k == "replace":
-            nodes[op[1]].replace_child(nodes[op[2]], nodes[op[3]], delete_old=False); return None
+            # the default form (the replaced node is also dropped from the registry) or the keeping form: the child lists and parent
+            # links are the same either way - in particular the replaced node keeps its own children.  The default form is used only
+            # while the replaced subtree is fully registered (a second deletion of the same node is C14's business).
+            old = nodes[op[2]]
+            def _all(n):
+                yield n
+                for c in n.children:
+                    yield from _all(c)
+            registered = all(Node.store.get(x.id) is x for x in _all(old))
+            if registered and (op[2] + op[3]) % 2 == 0:
+                nodes[op[1]].replace_child(old, nodes[op[3]])
+            else:
+                nodes[op[1]].replace_child(old, nodes[op[3]], delete_old=False)
+            return None
         if k == "shift":
             return nodes[op[1]].shift(nodes[op[2]], Shift.LEFT if op[3] == "L" else Shift.RIGHT, op[4])
         if k == "clear":
